@@ -531,6 +531,9 @@ package bt
 //@   pure
 //@   requires (spec.inputs_nonnil tx) (spec.out_scripts_nonnil tx)
 //@   ensures[C02.preimage_errors] (= (= err nil) (and (< inputNumber (len (. tx Inputs))) (> (len (. (at (. tx Inputs) inputNumber) previousTxID)) 0) (not (nil? (. (at (. tx Inputs) inputNumber) PreviousTxScript)))))
+//@   lemma (=> (= err nil) (= (bytes hashPreviousOuts) (old (spec.hash_prevouts tx sigHashFlag))))
+//@   lemma (=> (= err nil) (= (bytes hashSequence) (old (spec.hash_sequence tx sigHashFlag))))
+//@   lemma (=> (= err nil) (= (bytes hashOutputs) (old (spec.hash_outputs tx sigHashFlag inputNumber))))
 //@   ensures[C02.preimage] (=> (= err nil) (= (bytes r0) (old (spec.preimage143 tx inputNumber sigHashFlag))))
 // the signature-hash strategy is a bound method value: which method, on which transaction
 //@ func bt.(*Tx).sigStrat
